@@ -269,13 +269,16 @@ pub fn c17_time_test(_w: &mut (), c: &TimeCase) -> Verdict {
 #[derive(Clone, Debug, Serialize, Deserialize)]
 pub struct RealShutdown {
     pub tcp: bool,
+    /// which address a TCP server listens on: 0 127.0.0.1, 1 127.0.0.2, 2 [::1], 3 0.0.0.0
+    #[serde(default)]
+    pub addr: u8,
     pub burst: usize,
     /// hold a request across the drop and answer it afterwards
     pub hold: bool,
 }
 
 pub fn c20_real_strategy() -> BoxedStrategy<RealShutdown> {
-    (any::<bool>(), prop_oneof![Just(24usize), 6usize..40], any::<bool>()).prop_map(|(tcp, burst, hold)| RealShutdown { tcp, burst, hold }).boxed()
+    (any::<bool>(), 0u8..4, prop_oneof![Just(24usize), 6usize..40], any::<bool>()).prop_map(|(tcp, addr, burst, hold)| RealShutdown { tcp, addr, burst, hold }).boxed()
 }
 
 fn thread_count() -> usize {
@@ -322,11 +325,27 @@ pub fn c20_real_test(_w: &mut (), c: &RealShutdown) -> Verdict {
     let base = thread_count();
     let path = format!("{}/target/tmp/c20-{}.sock", vcore::report::verif_root(), std::process::id());
     let _ = std::fs::remove_file(&path);
-    let server = if c.tcp { tiny_http::Server::http("127.0.0.1:0").expect("bind") } else { tiny_http::Server::http_unix(std::path::Path::new(&path)).expect("bind unix") };
+    let bind_to = ["127.0.0.1:0", "127.0.0.2:0", "[::1]:0", "0.0.0.0:0"][c.addr as usize % 4];
+    let server = if c.tcp {
+        match tiny_http::Server::http(bind_to) {
+            Ok(s) => s,
+            // (no IPv6 loopback in this sandbox, …)
+            Err(_) => tiny_http::Server::http("127.0.0.1:0").expect("bind"),
+        }
+    } else {
+        tiny_http::Server::http_unix(std::path::Path::new(&path)).expect("bind unix")
+    };
     let addr = server.server_addr();
     let connect = |_: ()| -> std::io::Result<Cs> {
         match &addr {
-            tiny_http::ListenAddr::IP(a) => std::net::TcpStream::connect_timeout(a, Duration::from_secs(2)).map(Cs::T),
+            tiny_http::ListenAddr::IP(a) => {
+                // a wildcard listener is reached through the loopback address
+                let mut a = *a;
+                if a.ip().is_unspecified() {
+                    a.set_ip(std::net::IpAddr::V4(std::net::Ipv4Addr::LOCALHOST));
+                }
+                std::net::TcpStream::connect_timeout(&a, Duration::from_secs(2)).map(Cs::T)
+            }
             tiny_http::ListenAddr::Unix(_) => std::os::unix::net::UnixStream::connect(&path).map(Cs::U),
         }
     };
@@ -404,24 +423,20 @@ pub fn c20_real_test(_w: &mut (), c: &RealShutdown) -> Verdict {
         held_conn = Some(s);
     }
     drop(server);
-    let t2 = Instant::now();
-    let mut refused = false;
-    while t2.elapsed() < Duration::from_secs(2) {
-        match connect(()) {
-            Err(_) => {
-                refused = true;
-                break;
-            }
-            Ok(mut s) => {
-                // a connection that is accepted-and-dropped by the dying accept loop also counts as
-                // refused when nothing ever answers on it; keep probing until the deadline
-                let _ = s.w(b"GET /late HTTP/1.1\r\nHost: h\r\n\r\n");
-                std::thread::sleep(Duration::from_millis(50));
-            }
+    // "within a short bounded time new connection attempts are refused": stay quiet for a while
+    // (a probing client would itself wake a sleeping accept loop), then the FIRST attempt counts
+    std::thread::sleep(Duration::from_millis(1500));
+    let mut refused = connect(()).is_err();
+    if !refused {
+        // re-measure once after a longer quiet period before calling it a violation
+        std::thread::sleep(Duration::from_millis(3000));
+        refused = connect(()).is_err();
+        if refused {
+            return Verdict::Inconclusive("the listener closed only after a first probe connection (machine under load?)".into());
         }
     }
     if !refused {
-        return fail("C20/real/accepting-after-drop", "connection attempts still succeed 2 s after the server was dropped".to_string());
+        return fail("C20/real/accepting-after-drop", format!("connection attempts to {} still succeed 4.5 s after the server was dropped", addr));
     }
     if !c.tcp && std::path::Path::new(&path).exists() {
         return fail("C20/real/unix-path-not-removed", path);
@@ -439,5 +454,5 @@ pub fn c20_real_test(_w: &mut (), c: &RealShutdown) -> Verdict {
             return fail("C20/real/answer-after-drop-lost", format!("{:?}", vcore::resp::head_preview(&got)));
         }
     }
-    Verdict::Pass(Good::nontrivial().class(if c.tcp { "tcp" } else { "unix" }).class_if(c.hold, "request-held-across-drop").class(format!("peak-threads-above-baseline={}", (peak.saturating_sub(base)).min(64))))
+    Verdict::Pass(Good::nontrivial().class(if c.tcp { format!("tcp:{}", bind_to) } else { "unix".to_string() }).class_if(c.hold, "request-held-across-drop").class(format!("peak-threads-above-baseline={}", (peak.saturating_sub(base)).min(64))))
 }
